@@ -54,5 +54,7 @@ def refusal_part(ctx, tier):
     """C18: fills that must be refused (wrong number of coordinates, weights of the wrong length) interleaved with accepted
     ones on adaptive histograms: an exception, and nothing - not even the bins - has changed."""
     _res, g = ctx.model_check("MC_Adaptive_c04q", required_actions=REQ)
-    ad = AdaptiveAdapter(GRIDS_QUICK[1], spelling=1)
-    ctx.replay(g, ad, VIEW, label="adaptive-refusals:" + "/".join(x.name for x in GRIDS_QUICK[1]), edge_budget=30000 if tier == "quick" else 100000)
+    for sp in (0, 1):       # the order in which the representations of the bins are read (and cached) differs between the two
+        ad = AdaptiveAdapter(GRIDS_QUICK[1], spelling=sp)
+        ctx.replay(g, ad, VIEW, label=f"adaptive-refusals/sp{sp}:" + "/".join(x.name for x in GRIDS_QUICK[1]),
+                   edge_budget=30000 if tier == "quick" else 100000)
